@@ -153,6 +153,48 @@ fn c12_with_deletions() {
     c12_body(false, true);
 }
 
+/// four records: every triple of adjacent step patterns (+/-) occurs
+#[kani::proof]
+#[kani::unwind(7)]
+fn c12_four_records() {
+    let n: usize = kani::any();
+    kani::assume(n <= 4);
+    let ls = [LeapSecond::new(kani::any(), kani::any()), LeapSecond::new(kani::any(), kani::any()), LeapSecond::new(kani::any(), kani::any()), LeapSecond::new(kani::any(), kani::any())];
+    let types = [LocalTimeType::utc()];
+    let zone = match TimeZoneRef::new(&[], &types, &ls[..n], &None) {
+        Ok(z) => z,
+        Err(_) => return,
+    };
+    let ls = &ls[..n];
+    let u: i64 = kani::any();
+    let v: i64 = kani::any();
+    let t: i64 = kani::any();
+    let x = zone.unix_leap_time_to_unix_time(t);
+    match t.checked_sub(spec_corr(ls, t) as i64) {
+        Some(want) if t != i64::MIN => assert!(matches!(&x, Ok(g) if *g == want)),
+        _ => assert!(matches!(&x, Err(TzError::OutOfRange))),
+    }
+    let lu = zone.unix_time_to_unix_leap_time(u);
+    let lv = zone.unix_time_to_unix_leap_time(v);
+    if let (Ok(a), Ok(b)) = (&lu, &lv) {
+        if u <= v {
+            assert!(*a <= *b);
+        }
+    }
+    if let Ok(a) = &lu {
+        if !deleted(ls, u) {
+            if let Ok(back) = zone.unix_leap_time_to_unix_time(*a) {
+                assert!(back == u);
+            }
+        }
+        if let Ok(xt) = &x {
+            assert!((*a >= t) == (u >= *xt));
+        }
+    }
+    kani::cover!(n == 4 && ls[1].correction() == 0 && ls[3].correction() == 0);
+    kani::cover!(n == 4 && ls[3].correction() == 4);
+}
+
 /// public observable: the forward lookup switches type exactly at the UTC instant the transition's count denotes
 #[kani::proof]
 #[kani::unwind(6)]
@@ -260,6 +302,30 @@ fn c03_lookup_n4() {
 #[kani::stub(crate::timezone::AlternateTime::find_local_time_type, stub_alt_find)]
 fn c03_lookup_n6() {
     c03_body::<6>(0);
+}
+
+#[kani::proof]
+#[kani::unwind(10)]
+#[kani::stub(crate::timezone::RuleDay::unix_time, stub_rule_unix_time)]
+#[kani::stub(crate::timezone::AlternateTime::find_local_time_type, stub_alt_find)]
+fn c03_lookup_n8() {
+    c03_body::<8>(0);
+}
+
+#[kani::proof]
+#[kani::unwind(14)]
+#[kani::stub(crate::timezone::RuleDay::unix_time, stub_rule_unix_time)]
+#[kani::stub(crate::timezone::AlternateTime::find_local_time_type, stub_alt_find)]
+fn c03_lookup_n12() {
+    c03_body::<12>(0);
+}
+
+#[kani::proof]
+#[kani::unwind(8)]
+#[kani::stub(crate::timezone::RuleDay::unix_time, stub_rule_unix_time)]
+#[kani::stub(crate::timezone::AlternateTime::find_local_time_type, stub_alt_find)]
+fn c03_lookup_leap_n6() {
+    c03_body::<6>(3);
 }
 
 #[kani::proof]
